@@ -19,6 +19,7 @@ from .asttypes import (
     ASTS_LEAF_EXPR_OR_PATTERN,
     ASTS_LEAF_EXPR_CHAIN,
     ASTS_LEAF_STMTLIKE,
+    ASTS_LEAF_BLOCK,
     ASTS_LEAF_FUNCDEF,
     ASTS_LEAF_WITH,
     ASTS_LEAF_TUPLE_OR_LIST,
@@ -1759,6 +1760,19 @@ def _offset(
                 elif fend_lno > lno:
                     a.end_lineno = fend_lno + dln
                 elif fend_colo < colo:
+                    while recurse and a.__class__ in ASTS_LEAF_BLOCK:  # ends on the line of the offset point so a trailing line comment can lie past that point, it is part of the cached `bloc` of all the block statements which end here (chain of last children), so those caches are flushed before stopping
+                        if not (a := next((c for c in reversed(syntax_ordered_children(a)) if c), None)):
+                            break
+
+                        if (f := a.f) is not exclude:
+                            f._cache.clear()  # f._touch()
+
+                        else:
+                            if offset_excluded:
+                                f._cache.clear()  # f._touch()
+
+                            break
+
                     break  # SEE WARNING ABOVE!
 
                 elif (
